@@ -119,6 +119,12 @@ def possible_corpus():
     cases = [{"rows": h, "inits": {}} for h in H]
     cases.append({"rows": [row(100, "Buy", 20, 10, "Spouse"), row(120, "Split", split=("2", "1")), row(130, "Sell", 10, 4, "Spouse")],
                   "inits": {"CRP": (core.D(10), core.D(100))}})
+    # denied amounts that round to zero effective cents (accepted since the fix of C05 eff-cent-zero; the walk
+    # of Spec/Possible.v: nothing denied, no adjustment rows) and just above the tolerance
+    for dust in (core.D(1, 10), core.D(3, 10)):
+        cases.append({"rows": [row(10, "Buy", 10, 10), row(100, "Sell", 1, None), dict(row(105, "Buy", None, 10), sh=dust)], "inits": {}})
+        cases[-1]["rows"][1]["aps"] = core.D(95, 1)
+    cases.append({"rows": [dict(row(10, "Buy", 2, None), aps=core.D(10000000001, 10)), dict(row(20, "Sell", None, 1), sh=core.D(5, 1))], "inits": {}})
     return cases
 
 
